@@ -1289,6 +1289,34 @@ def gen_simd_kernels(repo):
     sk = ' '.join(c for c in calls if not c.endswith('set_epi8'))
     out += '/-- %s: horiz_convolution_four_rows: every intrinsic / helper called, in textual order -/\n' % f
     out += 'def u8x4_avx2_four_rows_skeleton : String := "%s"\n\n' % sk
+    # the AVX2 one-row kernel: 8 and 4 coefficients per step in a 256-bit register (two half accumulators that are
+    # added at the end), then the 128-bit 2 / 1 steps
+    m = re.search(r'unsafe fn horiz_convolution_one_row<const PRECISION: i32>\(.*?\n\}', src, re.S)
+    if not m:
+        raise TranslationError("%s: horiz_convolution_one_row not found" % f)
+    body = re.sub(r'//[^\n]*', '', m.group(0))
+    masks = []
+    for a in re.finditer(r'let (sh\d+) = _mm256_set_epi8\(([^;]*?)\);', body, re.S):
+        vals = [int(x) for x in a.group(2).replace('\n', ' ').split(',') if x.strip()]
+        if len(vals) != 32:
+            raise TranslationError("%s: mask %s does not have 32 entries" % (f, a.group(1)))
+        masks.append((a.group(1), list(reversed(vals))))
+    if [n for n, _ in masks] != ['sh1', 'sh2', 'sh3', 'sh4', 'sh5', 'sh6']:
+        raise TranslationError("%s: expected the 256-bit masks sh1 .. sh6, found %s" % (f, [n for n, _ in masks]))
+    for n, v in masks:
+        for half, part in (('lo', v[:16]), ('hi', v[16:])):
+            out += '/-- %s: horiz_convolution_one_row: %s 128-bit half of the shuffle mask %s, byte 0 first -/\n' % (f, 'low' if half == 'lo' else 'high', n)
+            out += 'def u8x4_avx2_one_%s_%s : List Int := [%s]\n\n' % (n, half, ', '.join(str(x) if x >= 0 else '(%d)' % x for x in part))
+    a = re.search(r'let sh7 = _mm_set_epi8\(([^;]*?)\);', body, re.S)
+    if not a:
+        raise TranslationError("%s: 128-bit mask sh7 not found" % f)
+    vals = list(reversed([int(x) for x in a.group(1).replace('\n', ' ').split(',') if x.strip()]))
+    out += '/-- %s: horiz_convolution_one_row: shuffle mask sh7, byte 0 first -/\n' % f
+    out += 'def u8x4_avx2_one_sh7 : List Int := [%s]\n\n' % ', '.join(str(x) if x >= 0 else '(%d)' % x for x in vals)
+    calls = re.findall(r'\b(_mm(?:256)?_\w+(?:::<\w+>)?|simd_utils::\w+|chunks_exact|remainder|first)\(([^()]*(?:\([^()]*\)[^()]*)*)\)', body)
+    sk = ' ; '.join('%s(%s)' % (c, ' '.join(a.split())) for c, a in calls if not c.endswith('set_epi8'))
+    out += '/-- %s: horiz_convolution_one_row: every intrinsic / helper call with its arguments, in textual order -/\n' % f
+    out += 'def u8x4_avx2_one_row_skeleton : String := "%s"\n\n' % sk.replace('"', '\\"')
     # the vertical pass for 8-bit components (all four u8 pixel types)
     f = 'src/convolution/vertical_u8/sse4.rs'
     with open(os.path.join(repo, f)) as fh:
